@@ -82,7 +82,8 @@ func faultCases() []eng.FaultCase {
 // bigBatchInvalid: an offending document (duplicate inside the batch, duplicate of a stored id, malformed id) at the
 // middle or the end of a batch of several hundred to several thousand documents: error, nothing changed.
 func bigBatchInvalid(run *ev.Run) {
-	bigBatchInvalidSizes(run, []int{150, 600, 1300, 2500, -2600}, []string{"last", "middle"}, []string{"dup-in-batch", "dup-stored", "malformed", "import-dup-in-file", "import-malformed-in-file"})
+	bigBatchInvalidSizes(run, []int{600, 1300, -2600}, []string{"last"}, []string{"dup-in-batch", "dup-stored", "malformed", "import-dup-in-file", "import-malformed-in-file"})
+	bigBatchInvalidSizes(run, []int{150, 2500}, []string{"middle"}, []string{"dup-in-batch", "malformed", "import-dup-in-file"})
 }
 
 func bigBatchInvalidSizes(run *ev.Run, sizes []int, wheres, kinds []string) {
@@ -181,10 +182,16 @@ func init() {
 	register("C04", "fault_enumeration", func(run *ev.Run, tier string) string {
 		tags := own("panic", "leak", "fault-swallowed", "fault-changed-state", "after-fault", "fault-free-run", "setup", "error-changed-state")
 		eng.FaultEnum(run, []string{drv.BBolt, drv.Badger}, faultPres(tier), faultCases(), tags)
+		run.Set("seconds_fault_enumeration", int(run.Elapsed().Seconds()))
 		bigBatchInvalid(run)
+		run.Set("seconds_after_big_batches", int(run.Elapsed().Seconds()))
 		// invalid input: every erroring transition of the id / name / index alphabets must leave the state unchanged
 		fe, fp := run.Get("evaluations"), run.DistinctCount("fault_positions")
-		runSS(run, tier, []string{"ids", "names3", "indexes"}, []string{drv.BBolt, drv.Badger}, "", own("error-changed-state", "leak"), nil)
+		runSS(run, tier, []string{"ids", "names3", "indexes"}, []string{drv.BBolt, drv.Badger}, "", own("error-changed-state", "leak"), func(c *eng.SSConfig) {
+			if tier != "thorough" && (c.Name == "ids" || c.Name == "names3") {
+				c.MaxDepth = 4 // every erroring operation is reachable within a few steps; C12/C13 run these spaces to their fixpoints
+			}
+		})
 		run.Set("fault_injections", fe)
 		run.Set("distinct_nontrivial", fp)
 		run.Set("evaluations", fe+run.Get("transitions"))
